@@ -302,13 +302,50 @@ func c05(r *core.Run) {
 	payName := core.TypeName(payT)
 	pst := payT.Underlying().(*types.Struct)
 	copies := map[string][]core.Field{} // payload field -> request fields
-	for _, b := range proc.Blocks {
-		for _, in := range b.Instrs {
-			st, ok := in.(*ssa.Store)
-			if !ok {
-				continue
+	// (the request / its resource part may be assembled by private helpers of processing: a value that
+	// is a helper's parameter stands for what the single call site passes)
+	procUnit := p.Helpers(proc)
+	upVal := func(v ssa.Value) ssa.Value {
+		for d := 0; d < 3; d++ {
+			prm, ok := core.Strip(v).(*ssa.Parameter)
+			if !ok || prm.Parent() == proc || !p.IsPrivateHelper(prm.Parent()) {
+				return v
 			}
-			src, ok := core.LoadedField(st.Val)
+			var cs []ssa.CallInstruction
+			for _, c := range p.CallersOf(prm.Parent()) {
+				for _, u := range procUnit {
+					if core.Outermost(c.Parent()) == u {
+						cs = append(cs, c) // a helper shared with other entry points: only processing's own call
+					}
+				}
+			}
+			if len(cs) != 1 {
+				return v
+			}
+			for i, q := range prm.Parent().Params {
+				if q == prm && i < len(cs[0].Common().Args) {
+					v = cs[0].Common().Args[i]
+				}
+			}
+		}
+		return v
+	}
+	var procStores []*ssa.Store
+	for _, f2 := range procUnit {
+		if f2 != proc && p.Within(f2, d) {
+			continue // the dispatcher unit is not part of assembling the request
+		}
+		for _, b := range f2.Blocks {
+			for _, in := range b.Instrs {
+				if st, ok := in.(*ssa.Store); ok {
+					procStores = append(procStores, st)
+				}
+			}
+		}
+	}
+	{
+		for _, st := range procStores {
+			src, ok := core.LoadedField(upVal(st.Val))
 			if !ok || src.Struct != payName {
 				continue
 			}
@@ -370,12 +407,8 @@ func c05(r *core.Run) {
 	wantSrc := map[string]string{"resource.pathParams": "Match.Params", "resource.group": "Match.Group", "resource.h": "Match.Handler", "resource.listeners": "Match.Listeners"}
 	gotSrc := map[string]string{}
 	paramSrc := map[string]string{}
-	for _, b := range proc.Blocks {
-		for _, in := range b.Instrs {
-			st, ok := in.(*ssa.Store)
-			if !ok {
-				continue
-			}
+	{
+		for _, st := range procStores {
 			dst, ok := core.FieldOf(st.Addr)
 			if !ok {
 				continue
@@ -383,7 +416,7 @@ func c05(r *core.Run) {
 			if src, ok := core.LoadedField(st.Val); ok && src.Struct == "Match" {
 				gotSrc[dst.String()] = src.String()
 			}
-			if prm, ok := st.Val.(*ssa.Parameter); ok {
+			if prm, ok := core.Strip(upVal(st.Val)).(*ssa.Parameter); ok && prm.Parent() == proc {
 				paramSrc[dst.String()] = prm.Name()
 			}
 		}
@@ -398,7 +431,7 @@ func c05(r *core.Run) {
 	for _, c := range callsTo(root, proc) {
 		h := core.Outermost(c.Parent())
 		var get ssa.CallInstruction
-		for _, cc := range core.Calls(h) {
+		for _, cc := range helperCalls(p, h) {
 			if cal := cc.Common().StaticCallee(); cal != nil && cal.Name() == "GetHandler" {
 				get = cc
 			}
@@ -450,10 +483,10 @@ func c05(r *core.Run) {
 	for _, c := range callsTo(root, proc) {
 		h := core.Outermost(c.Parent())
 		strip := map[string]bool{}
-		for _, cc := range core.Calls(h) {
+		for _, cc := range helperCalls(p, h) {
 			if cal := cc.Common().StaticCallee(); cal != nil && cal.String() == "strings.LastIndexByte" {
 				// the types on edges leading here: conditions rtype == const in predecessor chain
-				for _, b := range h.Blocks {
+				for _, b := range cc.Parent().Blocks {
 					iff, ok := b.Instrs[len(b.Instrs)-1].(*ssa.If)
 					if !ok {
 						continue
